@@ -53,6 +53,8 @@ def pointer_grammar(cur: str, old: str, orph: Optional[str], n: int, tier: str) 
         ("unicode_arabic_digit", "unparseable", "\u0663".encode()),              # isdigit() True, int() == 3
         ("fullwidth_digits", "unparseable", "\uff13".encode()),
         ("bom_current", "unparseable", b"\xef\xbb\xbf" + cur.encode()),
+        ("digits_5000", "missing-target", b"7" * 5000),        # beyond Python's int-from-string digit limit
+        ("version_digits_5000", "missing-target", b"v" + b"7" * 5000 + b"-deadbeef.metadata.json"),
     ]
     prefixes = range(1, len(cur)) if tier == "thorough" else [1, 2, 3, len(cur) // 2, len(cur) - 14, len(cur) - 5, len(cur) - 1]
     for k in prefixes:
